@@ -32,19 +32,24 @@ int main()
         QList<HandlerPtr> keep; // keep every handler alive so addresses are never reused
         int n = 0;
         QSharedPointer<Fm> lastFormatter; // for 'R': setFormatter with the same object again
+        QSharedPointer<A> lastA; QSharedPointer<F> lastF; QSharedPointer<S> lastS; PipelinePtr lastP; // for B G T Q
         std::ostringstream o;
         for (char c : line) {
             switch (c) {
-            case 'A': { auto h = QSharedPointer<A>::create(); ids[h.data()] = n; keep << h; p.appendAttrHandler(h); break; }
-            case 'F': { auto h = QSharedPointer<F>::create(); ids[h.data()] = n; keep << h; p.appendFilter(h); break; }
+            case 'A': { auto h = QSharedPointer<A>::create(); ids[h.data()] = n; keep << h; lastA = h; p.appendAttrHandler(h); break; }
+            case 'B': { if (!lastA) { lastA = QSharedPointer<A>::create(); ids[lastA.data()] = n; keep << lastA; } p.appendAttrHandler(lastA); break; }
+            case 'F': { auto h = QSharedPointer<F>::create(); ids[h.data()] = n; keep << h; lastF = h; p.appendFilter(h); break; }
+            case 'G': { if (!lastF) { lastF = QSharedPointer<F>::create(); ids[lastF.data()] = n; keep << lastF; } p.appendFilter(lastF); break; }
             case 'M': { auto h = QSharedPointer<Fm>::create(); ids[h.data()] = n; keep << h; lastFormatter = h; p.setFormatter(h); break; }
             case 'R': {
                 if (!lastFormatter) { lastFormatter = QSharedPointer<Fm>::create(); ids[lastFormatter.data()] = n; keep << lastFormatter; }
                 p.setFormatter(lastFormatter);
                 break;
             }
-            case 'S': { auto h = QSharedPointer<S>::create(); ids[h.data()] = n; keep << h; p.appendSink(h); break; }
-            case 'P': { auto h = PipelinePtr::create(); ids[h.data()] = n; keep << h; p.appendPipeline(h); break; }
+            case 'S': { auto h = QSharedPointer<S>::create(); ids[h.data()] = n; keep << h; lastS = h; p.appendSink(h); break; }
+            case 'T': { if (!lastS) { lastS = QSharedPointer<S>::create(); ids[lastS.data()] = n; keep << lastS; } p.appendSink(lastS); break; }
+            case 'P': { auto h = PipelinePtr::create(); ids[h.data()] = n; keep << h; lastP = h; p.appendPipeline(h); break; }
+            case 'Q': { if (!lastP) { lastP = PipelinePtr::create(); ids[lastP.data()] = n; keep << lastP; } p.appendPipeline(lastP); break; }
             case '1': p.appendAttrHandler(AttrHandlerPtr()); break;
             case '2': p.appendFilter(FilterPtr()); break;
             case '3': p.setFormatter(FormatterPtr()); break;
